@@ -154,8 +154,9 @@ CHECKS = {
     "C14": dict(
         text="Theorem over the reconstruct_volumes state machine (last_filename / curr_volume / slice_counter / volume_size) for every sequence of volumes delivered as non-empty batches of consecutive slices, any names, items and per-slice function: "
              "exactly one output per volume, in order, k-th slice = processed output of the k-th slice; composed with the chunking of the volume batch sampler the result is independent of the batch size. "
-             "The state machine is tied to the code by exact correspondence through the real Engine.predict -> reconstruct_volumes -> _process_output with a marker model (per-slice scaling factors, header crop, world/rank, 0-2 workers).",
-        note=PROOF_NOTE + "The C14 model is hand-written (no translator). Modelled, not verified: DataLoader ordering with workers, default collate, per-sample action of _process_output (validated by pixel checks), C13 for the batches.",
+             "The body of the batch loop is regenerated from the source on every run as a statement list (guards, slice assignment into a buffer of volume_size slots, yield) and proved to refine that state machine for every sequence of batches (a raise in one is a raise in the other). "
+             "The state machine is also tied to the code by exact correspondence through the real Engine.predict -> reconstruct_volumes -> _process_output with a marker model (per-slice scaling factors, header crop, world/rank, 0-2 workers).",
+        note=PROOF_NOTE + "The statements computing a batch's output are abstracted to a per-slice function (validated by the correspondence). Modelled, not verified: DataLoader ordering with workers, default collate, per-sample action of _process_output (validated by pixel checks), C13 for the batches.",
         technique="Coq proof (induction over volumes and batches of the bookkeeping state machine) + exact correspondence through the real predict loop",
         design="§6 C14"),
     "C15": dict(
